@@ -44,16 +44,20 @@ struct String {
 
     /// Assigns \a other to this string and returns a reference to this string.
     String &operator=(const String &other) {
-        cbindgen_private::resolvo_string_drop(this);
-        cbindgen_private::resolvo_string_clone(this, &other);
+        // `other` may be this very string: take the new reference before the old
+        // one is released.
+        String copy(other);
+        std::swap(inner, copy.inner);
         return *this;
     }
 
     /// Assigns the string view \a s to this string and returns a reference to this string.
     /// The underlying string data is copied.  It is assumed that the string is UTF-8 encoded.
     String &operator=(std::string_view s) {
-        cbindgen_private::resolvo_string_drop(this);
-        cbindgen_private::resolvo_string_from_bytes(this, s.data(), s.size());
+        // `s` may point into the data of this string: copy it before the old data
+        // is released.
+        String copy(s);
+        std::swap(inner, copy.inner);
         return *this;
     }
 
